@@ -89,7 +89,7 @@ cigar_bytes = Contract("C16.BamBufferExtractor._get_cigar_bytes", target=lambda:
 # derived offsets of the variable-length fields
 def _prop(name):
     p = getattr(_X(), name)
-    f = p.fget
+    f = getattr(p, "fget", None) or p.func      # util.cached_property (property over lru_cache) or functools.cached_property
     return getattr(f, "__wrapped__", f)
 
 
